@@ -132,14 +132,12 @@ def _path_cached(size):
             E = core.ENGINE
             if E is None:
                 return f(*a)
-            k = (id(f), E.stats["paths"]) + tuple(_key(x) for x in a)
+            k = (id(f),) + tuple(_key(x) for x in a)
             try:
                 r = _PATH_MEMO.get(k)
             except TypeError:
                 return f(*a)
             if r is None:
-                if len(_PATH_MEMO) > 64:
-                    _PATH_MEMO.clear()
                 r = _PATH_MEMO[k] = (a, f(*a))
             return r[1]
 
@@ -167,3 +165,6 @@ def install(disable_cache=True):
         # rope's cross-call memo would compare stale symbolic keys from a previous path; it is
         # replaced by a memo that lives for one path only and is keyed structurally
         u.cached = _path_cached
+        from . import core
+
+        core.PATH_START_HOOKS.append(_PATH_MEMO.clear)
